@@ -312,6 +312,8 @@ def enumerate_scripts(tier, feed):
             for qk in QUITS:
                 add(tr, op, big, 'separated', [], qk)
             for a in SIGMA:
+                if a == 'Expire' and op == 'ft0':
+                    continue   # --filter-time=0 already expires everything at once
                 add(tr, op, big, 'separated', [a])
     bound['parts']['depth<=1 @80x24 x tracked(4) x opts(5)'] = len(out) - n0
 
